@@ -1012,11 +1012,11 @@ def ctor_explicit(c):
     raise ValueError(op)
 
 
-def ctor_call(c):
-    """the real convenience constructor applied to real operand templates"""
+def ctor_call(c, a=None):
+    """the real convenience constructor applied to real operand templates (`a`: operands built by the caller)"""
     from qupulse.pulses import SequencePT, TimeReversalPT
     op = c['op']
-    a = [I.build_pt(x) for x in c['args']]
+    a = a if a is not None else [I.build_pt(x) for x in c['args']]
     if op == 'matmul':
         return a[0] @ a[1]
     if op == 'concat':
@@ -1411,6 +1411,8 @@ def script_finish(rng, c, budget=48):
     t = vals[c['target']]
     if t is None:
         return None
+    if c['target'] < len(c['args']) and c.get('same') == 'after':
+        c['same'] = None              # a receiver compared with itself says nothing; 'before' = compiled before AND after
     names = free_names(t)
     if names - {'i'}:
         return None
@@ -1494,11 +1496,14 @@ def gen_script_cases(rng, n, exhaustive=False):
             variants.append(('again', [['pad', inner, rng.choice([1, 2, 4])]]))        # the same object padded twice
             variants.append(('padpad', [['pad', padded, 1]]))                           # pad of the padded template
             variants.append(('rewrap', [script_step(rng, g, c, script_values(c), [chain[0]], src=padded)]))
+            variants.append(('base', 'base'))            # the receiver itself, after everything was built from it
             if not exhaustive:
                 variants = variants[:2] + rng.sample(variants[2:], 1) if len(variants) > 2 else variants
             for name, extra in variants:
                 cc = copy.deepcopy(c)
-                if extra is None:
+                if extra == 'base':
+                    cc['target'] = rng.choice(range(top + 1))      # the base or one of the wrappers, compiled last
+                elif extra is None:
                     cc['target'] = padded - 1
                 elif any(e is None for e in extra):
                     continue
@@ -1538,6 +1543,8 @@ def gen_script_cases(rng, n, exhaustive=False):
         if not live:
             continue
         c['target'] = rng.choice(pads) if pads and rng.random() < 0.7 else rng.choice(live)
+        if rng.random() < 0.12:
+            c['target'] = rng.choice(range(len(args)))         # a receiver itself: must be what it was
         c['same'] = rng.choice(sames)
         c = script_finish(rng, c)
         if c is not None:
@@ -1698,12 +1705,25 @@ def run_impl(case):
                         if 'crash' in o:
                             return o
                     return {'built': describe(built), 'o1': o1, 'o2': o2}
-                built = ctor_call(case)
+                # the operands are compiled before and after the call: a constructor must leave them as they were
+                operands = [I.build_pt(x) for x in case['args']]
+                pp = dict({'i': 1}, **I.py_params(case.get('params')))
+
+                def look():
+                    try:
+                        return [I.observe(a.create_program(parameters=pp), case['step']) for a in operands]
+                    except Exception as e:
+                        return 'not compilable: %s' % type(e).__name__
+                before = look()
+                built = ctor_call(case, operands)
                 o1 = I.observe(built.create_program(parameters=I.py_params(case.get('params'))), case['step'])
                 o2 = I.run_options(ctor_explicit(case), [], None, case['step'], params=case.get('params'))
                 for o in (o1, o2):
                     if 'crash' in o:
                         return o
+                if look() != before:
+                    return {'crash': 'the convenience constructor changed one of its operands (compiled before and '
+                                     'after the call: different programs)'}
                 # the operands as the real objects are (MappingPT(MappingPT(x)) already merges when it is built)
                 return {'built': describe(built), 'o1': o1, 'o2': o2,
                         'args': [describe(I.build_pt(x)) for x in case['args']]}
